@@ -354,6 +354,11 @@ func VerifModes(args []string) {
 	progF := pf.ParseProgram()
 	lineOK := len(pl.Errors()) == 0 && !pl.ContinuationNeeded()
 	fileOK := len(pf.Errors()) == 0
+	if len(args) > 1 && args[1] == "complete" {
+		// a program that is complete by construction: line mode must take it as it is
+		vAssert(fileOK, "modes/complete-program-rejected-in-file-mode")
+		vAssert(lineOK, "modes/complete-program-not-accepted-in-line-mode")
+	}
 	if lineOK {
 		vReach("line mode accepts")
 		vAssert(fileOK, "modes/line-accepts-file-rejects")
